@@ -7,6 +7,8 @@
 -/
 import PG.Model.Parser
 import PG.Lemmas.ListBasics
+import PG.Lemmas.ParserProgress
+import PG.Lemmas.ParserLocal
 namespace PG
 
 /-- every string a record carries -/
@@ -17,29 +19,59 @@ def Record.strings : Record → List Bytes
   | .method ty o b a c _ => [ty, o, b, a] ++ c.toList
 
 /-- one iteration consumes at least one byte -/
-theorem C06_progress (bs : Bytes) (h : bs ≠ []) : (parseRecord bs).2.length < bs.length := by
-  sorry
+theorem C06_progress (bs : Bytes) (h : bs ≠ []) : (parseRecord bs).2.length < bs.length :=
+  parseRecord_progress bs h
 
 /-- the remainder is always a suffix of the input (no byte is invented or reordered) -/
-theorem C06_rest_suffix (bs : Bytes) : (parseRecord bs).2 <:+ bs := by
-  sorry
+theorem C06_rest_suffix (bs : Bytes) : (parseRecord bs).2 <:+ bs :=
+  parseRecord_rest_suffix bs
 
 /-- the fuel suffices: `records` satisfies the iterator's defining equation -/
 theorem C06_unfold (bs : Bytes) (h : bs ≠ []) :
-    records bs = (parseRecord bs).1 :: records (parseRecord bs).2 := by
-  sorry
+    records bs = (parseRecord bs).1 :: records (parseRecord bs).2 :=
+  records_unfold bs h
 
-theorem C06_nil : records [] = [] := by
-  sorry
+theorem C06_nil : records [] = [] := records_nil
 
 /-- at most one item per input byte -/
-theorem C06_count (bs : Bytes) : (records bs).length ≤ bs.length := by
-  sorry
+theorem C06_count (bs : Bytes) : (records bs).length ≤ bs.length :=
+  records_count bs
 
 /-- no name, type, argument string or header value that is yielded contains a line terminator -/
 theorem C06_fields_no_terminator (bs : Bytes) :
     ∀ r, Item.ok r ∈ records bs → ∀ s ∈ r.strings, ∀ b ∈ s, isNewline b = false := by
-  sorry
+  intro r hr s hs
+  have hok := records_ok_recOK bs r hr
+  cases r with
+  | header k v =>
+    obtain ⟨hk, hv⟩ := hok
+    simp only [Record.strings, List.mem_cons, Option.mem_toList] at hs
+    rcases hs with rfl | hs
+    · exact hk
+    · exact hv s hs
+  | cls o b =>
+    obtain ⟨h1, h2⟩ := hok
+    simp only [Record.strings, List.mem_cons, List.not_mem_nil, or_false] at hs
+    rcases hs with rfl | rfl
+    · exact h1
+    · exact h2
+  | field ty o b =>
+    obtain ⟨h1, h2, h3⟩ := hok
+    simp only [Record.strings, List.mem_cons, List.not_mem_nil, or_false] at hs
+    rcases hs with rfl | rfl | rfl
+    · exact h1
+    · exact h2
+    · exact h3
+  | method ty o b a c lm =>
+    obtain ⟨h1, h2, h3, h4, h5⟩ := hok
+    simp only [Record.strings, List.mem_append, List.mem_cons, List.not_mem_nil, or_false,
+      Option.mem_toList] at hs
+    rcases hs with (rfl | rfl | rfl | rfl) | hs
+    · exact h1
+    · exact h2
+    · exact h3
+    · exact h4
+    · exact h5 s hs
 
 /-- normal form of a record stream for comparing across a split: error lines lose their
     trailing terminator bytes (unavoidable: `records "x" = [err "x"]` but
@@ -52,22 +84,141 @@ def normItems (items : List Item) : List Item :=
     | .ok r => some (.ok r)
     | .err l => if (stripNl l).isEmpty then none else some (.err (stripNl l)))
 
+/-! ### helper lemmas for `C06_resync` -/
+
+theorem normItems_ok (r : Record) (xs : List Item) :
+    normItems (.ok r :: xs) = .ok r :: normItems xs := by
+  simp [normItems]
+
+theorem normItems_err (e : Bytes) (xs : List Item) :
+    normItems (.err e :: xs) =
+      if (stripNl e).isEmpty then normItems xs else .err (stripNl e) :: normItems xs := by
+  unfold normItems
+  rw [List.filterMap_cons]
+  by_cases h : (stripNl e).isEmpty = true
+  · simp only [h, if_true]
+  · simp only [h, Bool.false_eq_true, if_false]
+
+theorem normItems_nil : normItems [] = [] := rfl
+
+theorem stripNl_snoc_nl (l : Bytes) {n : UInt8} (hn : isNewline n = true) :
+    stripNl (l ++ [n]) = stripNl l := by
+  simp [stripNl, hn]
+
+theorem stripNl_noNl {l : Bytes} (hl : NoNl l) : stripNl l = l := by
+  unfold stripNl
+  have : l.reverse.dropWhile isNewline = l.reverse := by
+    cases h : l.reverse with
+    | nil => rfl
+    | cons c m =>
+      have : isNewline c = false := hl c (by rw [← List.mem_reverse, h]; simp)
+      simp [this]
+  rw [this, List.reverse_reverse]
+
+theorem norm_records_cons_nl {n : UInt8} (hn : isNewline n = true) (x : Bytes) :
+    normItems (records (n :: x)) = normItems (records x) := by
+  by_cases hx : x = []
+  · subst hx
+    rw [records_single_nl hn, records_nil]
+    rfl
+  · rw [records_cons_nl hn hx]
+
+theorem norm_records_consume (x : Bytes) :
+    normItems (records (consumeNewlines x)) = normItems (records x) := by
+  induction x with
+  | nil => rfl
+  | cons c x ih =>
+    cases hc : isNewline c with
+    | true =>
+      rw [norm_records_cons_nl hc]
+      have : consumeNewlines (c :: x) = consumeNewlines x := by
+        simp [consumeNewlines, hc]
+      rw [this, ih]
+    | false => rw [consumeNewlines_of_head hc]
+
+theorem resync_aux (nl : UInt8) (hnl : isNewline nl = true) (n : Nat) :
+    ∀ a : Bytes, a.length = n → ∀ b : Bytes,
+      normItems (records (a ++ nl :: b)) = normItems (records a) ++ normItems (records b) := by
+  induction n using Nat.strongRecOn with
+  | _ n ih =>
+    intro a han b
+    cases a with
+    | nil =>
+      rw [List.nil_append, norm_records_cons_nl hnl, records_nil, normItems_nil, List.nil_append]
+    | cons c a' =>
+      cases hc : isNewline c with
+      | true =>
+        rw [List.cons_append, norm_records_cons_nl hc, norm_records_cons_nl hc]
+        exact ih a'.length (by simp at han; omega) a' rfl b
+      | false =>
+        obtain ⟨l, t, hdec, hlne, hl, ht⟩ := line_decomp c a' hc
+        rw [hdec] at han ⊢
+        have hlpos : 0 < l.length := List.length_pos_iff.mpr hlne
+        simp only [List.length_append] at han
+        cases hp : parseRecord l with
+        | mk it rem =>
+        cases it with
+        | ok r =>
+          rcases ht with rfl | ⟨n', t', rfl, hn'⟩
+          · obtain ⟨h1, h2, h3, _⟩ := records_local_ok hl hlne nl b hnl hp
+            rw [List.append_nil, h1, h2, normItems_ok, normItems_ok, norm_records_consume,
+              ih rem.length (by simp at han; omega) rem rfl b]
+            rfl
+          · obtain ⟨h1, _, h3, _⟩ := records_local_ok hl hlne n' (t' ++ nl :: b) hn' hp
+            obtain ⟨h1', _, _, _⟩ := records_local_ok hl hlne n' t' hn' hp
+            rw [List.append_assoc, List.cons_append, h1, h1', normItems_ok, normItems_ok,
+              norm_records_consume, norm_records_consume]
+            have := ih (rem ++ n' :: t').length
+              (by simp only [List.length_append, List.length_cons] at han ⊢; omega)
+              (rem ++ n' :: t') rfl b
+            rw [List.append_assoc, List.cons_append] at this
+            rw [this]; rfl
+        | err e =>
+          rcases ht with rfl | ⟨n', t', rfl, hn'⟩
+          · obtain ⟨h1, h2⟩ := records_local_err hl hlne nl b hnl hp
+            have hs : (stripNl l).isEmpty = false := by
+              rw [stripNl_noNl hl]; simpa using hlne
+            rw [List.append_nil, h1, h2, normItems_err, normItems_err, stripNl_snoc_nl l hnl, hs]
+            simp [normItems_nil]
+          · obtain ⟨h1, _⟩ := records_local_err hl hlne n' (t' ++ nl :: b) hn' hp
+            obtain ⟨h1', _⟩ := records_local_err hl hlne n' t' hn' hp
+            rw [List.append_assoc, List.cons_append, h1, h1', normItems_err, normItems_err,
+              ih t'.length (by simp only [List.length_cons] at han; omega) t' rfl b]
+            split <;> simp
+
 /-- Parsing resynchronises at every line break: the records of `A ++ newline ++ B` are the
     records of `A` followed by the records of `B`.  A truncated, binary or otherwise malformed
     line can only turn itself into an error. -/
 theorem C06_resync (a b : Bytes) (nl : UInt8) (hnl : isNewline nl = true) :
-    normItems (records (a ++ nl :: b)) = normItems (records a) ++ normItems (records b) := by
-  sorry
+    normItems (records (a ++ nl :: b)) = normItems (records a) ++ normItems (records b) :=
+  resync_aux nl hnl a.length a rfl b
 
 /-- error items with an empty line occur only as the last item (input ending in terminators) -/
 theorem C06_empty_err_last (bs : Bytes) (pre post : List Item)
     (h : records bs = pre ++ Item.err [] :: post) : post = [] := by
-  sorry
+  generalize hn : bs.length = n at h
+  induction n using Nat.strongRecOn generalizing bs pre with
+  | _ n ih =>
+    by_cases hb : bs = []
+    · subst hb; rw [records_nil] at h; simp at h
+    · rw [records_unfold bs hb] at h
+      have hp := parseRecord_progress bs hb
+      cases pre with
+      | nil =>
+        simp only [List.nil_append, List.cons.injEq] at h
+        obtain ⟨h1, h2⟩ := h
+        have : (parseRecord bs).2 = [] :=
+          parseRecord_err_nil (bs := bs) (rest := (parseRecord bs).2) (by rw [← h1])
+        rw [this, records_nil] at h2
+        exact h2.symm
+      | cons p pre' =>
+        simp only [List.cons_append, List.cons.injEq] at h
+        exact ih _ (by omega) (parseRecord bs).2 pre' h.2 rfl
 
 /-- non-vacuity / the shape of the claim on a concrete input: a binary line between two good
     lines turns only itself into an error -/
 example : records ([97, 32, 45, 62, 32, 98, 58, 10] ++ [255, 0, 7] ++ 10 :: [99, 32, 45, 62, 32, 100, 58]) =
     [.ok (.cls [97] [98]), .err [255, 0, 7, 10], .ok (.cls [99] [100])] := by
-  sorry
+  decide
 
 end PG
